@@ -460,6 +460,9 @@ def edge_facts(body):
             elif e.k == "call":
                 out.append(((s, tr), ("Bool", e, True)))
                 out.append(((s, fa), ("Bool", e, False)))
+            elif e.k in ("field", "param", "deref"):
+                out.append(((s, tr), ("BoolVal", e, True)))
+                out.append(((s, fa), ("BoolVal", e, False)))
         else:
             # integer / discriminant switch
             vals = [v for v, _ in t["targets"]]
@@ -488,6 +491,88 @@ def facts_at(body, bb):
     return res
 
 
+def facts_at_e(body, bb):
+    cache = getattr(body, "_facts_at_e", None)
+    if cache is None:
+        cache = body._facts_at_e = {}
+    if bb in cache:
+        return cache[bb]
+    res = [(edge, fact) for edge, fact in edge_facts(body) if must_pass_edge(body, bb, edge)]
+    cache[bb] = res
+    return res
+
+
+LEN_ACCESSORS = {"len", "is_empty"}
+CONTAINER_MUTATORS = {"push", "push_back", "push_front", "pop", "pop_back", "pop_front", "truncate", "clear", "drain", "remove", "swap_remove",
+                      "insert", "extend", "extend_from_slice", "append", "resize", "retain", "split_off", "dedup", "swap", "replace", "take"}
+
+
+def _container_root(e):
+    e = peel(e)
+    n = 0
+    while e is not None and n < 20:
+        n += 1
+        if e.k in ("local", "multi"):
+            return ("local", e.local)
+        if e.k == "param":
+            return ("param", e.idx)
+        if e.k == "field":
+            # self field containers: identify by the field path
+            from .mir import self_field_path
+            fp = self_field_path(e)
+            if fp:
+                return ("self", tuple(fp))
+            e = peel(e.a)
+        elif e.k == "call":
+            if e.bb is not None and (e.q or "").split("::")[-1] in ("new", "with_capacity", "collect", "to_vec", "from_elem", "into_vec"):
+                return ("call", e.bb)
+            if e.args:
+                e = peel(e.args[0])
+            else:
+                return None
+        elif e.k in ("index", "downcast"):
+            e = peel(e.a)
+        else:
+            return None
+    return None
+
+
+def _mutated_between(body, root, edge, use_bb):
+    """Is the container `root` possibly mutated on a path from the guard edge to use_bb?"""
+    if root is None:
+        return True
+    after_guard = body.reachable(edge[1])
+    for bb2, t in body.calls():
+        if bb2 not in after_guard or bb2 == use_bb:
+            continue
+        name = t["f"].get("name")
+        if name not in CONTAINER_MUTATORS and not (t["f"].get("q") or "").startswith("std::mem::"):
+            continue
+        hit = False
+        for i, a in enumerate(t["args"]):
+            ty = (t.get("argtys") or [""] * len(t["args"]))[i]
+            if ty.startswith("&mut") and _container_root(body.operand_expr(a)) == root:
+                hit = True
+        if hit and use_bb in body.reachable(bb2):
+            return True
+    return False
+
+
+def _same_value(body, x, y, edge, use_bb):
+    """same_expr, extended: two len()/is_empty() calls on the same container are the same value when the
+    container is not mutated between the guard and the use."""
+    if _same_expr(x, y):
+        return True
+    px, py = peel(x, through_try=False), peel(y, through_try=False)
+    if px.k == "call" and py.k == "call" and px.args and py.args:
+        nx, ny = (px.q or "").split("::")[-1], (py.q or "").split("::")[-1]
+        if nx == ny and nx in LEN_ACCESSORS:
+            rx, ry = _container_root(px.args[0]), _container_root(py.args[0])
+            if rx is not None and rx == ry and not _mutated_between(body, rx, edge, use_bb):
+                return True
+    return False
+
+
 def _const_of(e):
     e = peel(e, through_try=False)
     if e is not None and e.k == "const" and isinstance(e.v, int) and not isinstance(e.v, bool):
@@ -506,27 +591,43 @@ def known_ge(body, bb, a, b):
         return True
     if pa.k == "call" and (pa.q in MAX_CALLS or pa.rq in MAX_CALLS) and any(_same_expr(x, pb) for x in pa.args):
         return True
-    for fact in facts_at(body, bb):
+    # b = a' / c  or  a' - c  or  a' & m  with a' == a  (never larger than a for unsigned values)
+    if pb.k == "bin" and pb.op in ("Div", "Sub", "BitAnd", "Shr", "Rem") and _same_expr(pb.a, pa):
+        return True
+    # a = b' + c / b' * c (c >= 1) with b' == b
+    if pa.k == "bin" and pa.op == "Add" and (_same_expr(pa.a, pb) or _same_expr(pa.b, pb)):
+        return True
+    ca = _const_of(pa)
+    if ca is not None and cb is not None:
+        return ca >= cb
+    for edge, fact in facts_at_e(body, bb):
         rel = fact[0]
+        sv = lambda u, v: _same_value(body, u, v, edge, bb)
         if rel in _REL_NEG:
             x, y = fact[1], fact[2]
-            if _same_expr(x, pa) and _same_expr(y, pb) and rel in ("Ge", "Gt", "Eq"):
+            if sv(x, pa) and sv(y, pb) and rel in ("Ge", "Gt", "Eq"):
                 return True
-            if _same_expr(x, pb) and _same_expr(y, pa) and rel in ("Le", "Lt", "Eq"):
+            if sv(x, pb) and sv(y, pa) and rel in ("Le", "Lt", "Eq"):
                 return True
             if cb is not None:
                 cy = _const_of(y)
                 cx = _const_of(x)
-                if _same_expr(x, pa) and cy is not None:
+                if sv(x, pa) and cy is not None:
                     if (rel == "Ge" and cy >= cb) or (rel == "Gt" and cy >= cb - 1) or (rel == "Ne" and cy == 0 and cb == 1) or (rel == "Eq" and cy >= cb):
                         return True
-                if _same_expr(y, pa) and cx is not None:
+                if sv(y, pa) and cx is not None:
                     if (rel == "Le" and cx >= cb) or (rel == "Lt" and cx >= cb - 1) or (rel == "Ne" and cx == 0 and cb == 1) or (rel == "Eq" and cx >= cb):
                         return True
-        elif rel == "IntNe" and cb == 1 and fact[2] == 0 and _same_expr(fact[1], pa):
+        elif rel == "IntNe" and cb == 1 and fact[2] == 0 and sv(fact[1], pa):
             return True
-        elif rel == "IntEq" and cb is not None and fact[2] >= cb and _same_expr(fact[1], pa):
+        elif rel == "IntEq" and cb is not None and fact[2] >= cb and sv(fact[1], pa):
             return True
+        elif rel == "Bool" and cb == 1 and fact[2] is False and (fact[1].q or "").split("::")[-1] == "is_empty":
+            # !x.is_empty()  =>  x.len() >= 1
+            if pa.k == "call" and (pa.q or "").split("::")[-1] == "len" and pa.args and fact[1].args:
+                rx, ry = _container_root(pa.args[0]), _container_root(fact[1].args[0])
+                if rx is not None and rx == ry and not _mutated_between(body, rx, edge, bb):
+                    return True
     return False
 
 
